@@ -93,6 +93,18 @@ def probe_cache(unyt, which):
     return Unit(SENTINEL, registry=reg) is not u1
 
 
+def probe_copy(unyt):
+    """a deep copy keeps the written-back entries flagged: an edit of the copy forgets them"""
+    import copy
+
+    reg = copy.deepcopy(_registry_with(unyt, 1))
+    if SENTINEL not in reg.lut:
+        return True, True  # the copy does not even hold them
+    u_cached = SENTINEL in getattr(reg, "_unit_object_cache", {})
+    reg.modify(USER, 5.0)
+    return SENTINEL not in reg.lut, not u_cached
+
+
 def unconditional_forget(cls, name):
     """is `self._forget_derived_symbols()` a top-level statement of the method, before any statement that
     mentions `self.lut`?"""
@@ -123,6 +135,7 @@ def generate(X):
     dump = bool(probe_dump(unyt))
 
     cache = {w: bool(probe_cache(unyt, w)) for w in ("add", "remove", "modify", "reload")}
+    copy_flags, cache["copy"] = probe_copy(unyt)
 
     def lb(b):
         return "true" if b else "false"
@@ -134,12 +147,12 @@ def generate(X):
         + "def regCfg : Unyt.NamesHist.Cfg :=\n"
         + "  { addTbl := [" + ", ".join(lb(b) for b in add_tbl) + "],\n"
         + f"    removeForgets := {lb(rem)}, modifyForgets := {lb(mod)}, dumpSkipsDerived := {lb(dump)},\n"
-        + f"    forgetUnconditional := {lb(uncond)} }}\n\n"
+        + f"    forgetUnconditional := {lb(uncond)}, copyKeepsFlags := {lb(copy_flags)} }}\n\n"
         + "/-- which edits empty `_unit_object_cache` (probed: is `Unit(str, registry)` a new object afterwards) -/\n"
         + "def regCacheCfg : Unyt.NamesHist.CacheCfg :=\n"
         + f"  {{ addClears := {lb(cache['add'])}, removeClears := {lb(cache['remove'])}, modifyClears := {lb(cache['modify'])},\n"
-        + f"    reloadEmpty := {lb(cache['reload'])} }}\n\n"
+        + f"    reloadEmpty := {lb(cache['reload'])}, copyEmpty := {lb(cache['copy'])} }}\n\n"
         + "end Unyt.Generated.C14\n"
     )
     X.write_if_changed(os.path.join(X.GEN, "C14RegCfg.lean"), text)
-    return {"add_probe": add_probe, "source_unconditional": src_ok, "add_tbl": add_tbl, "remove": rem, "modify": mod, "dump": dump, "cache": cache}
+    return {"add_probe": add_probe, "source_unconditional": src_ok, "add_tbl": add_tbl, "remove": rem, "modify": mod, "dump": dump, "cache": cache, "copy_keeps_flags": copy_flags}
